@@ -25,7 +25,7 @@ def main():
         cmd.insert(4, "--3way")
         r = subprocess.run(cmd, capture_output=True, text=True)
         if r.returncode:
-            subprocess.run(["git", "-C", "/repo", "checkout", "--", "."])
+            subprocess.run(["git", "-C", "/repo", "reset", "-q", "--hard"])
             print("patch does not apply:", r.stderr); return 2
         subprocess.run(["git", "-C", "/repo", "reset", "-q"])
         print("(applied with --3way)")
@@ -41,8 +41,7 @@ def main():
             if p.stderr.strip():
                 print("   stderr:", p.stderr.strip()[-500:])
     finally:
-        subprocess.run(["git", "-C", "/repo", "reset", "-q"])
-        subprocess.run(["git", "-C", "/repo", "checkout", "--", "."])
+        subprocess.run(["git", "-C", "/repo", "reset", "-q", "--hard"])
         subprocess.run(["git", "-C", "/repo", "clean", "-fdq"])
     print("RESULT", patch, rc)
     return 0
